@@ -306,12 +306,12 @@ PROPERTIES = {
     "C09": {
         "functions": [SUP + "predict", "opfython.core.subgraph.Subgraph.mark_nodes",
                       "opfython.models.knn_supervised.KNNSupervisedOPF.predict",
-                      "opfython.models.unsupervised.UnsupervisedOPF.predict", "effects:C07"],
+                      "opfython.models.unsupervised.UnsupervisedOPF.predict", "effects:C07", "lean:KNearest"],
         "lemmas": [],
         "files": ["opfython/models/supervised.py", "opfython/models/knn_supervised.py", "opfython/models/unsupervised.py",
                   "opfython/core/subgraph.py", "opfython/subgraphs/knn.py", "opfython/core/node.py"],
         "bounded": "bounded.c09",
-        "level": "other",
+        "level": "proof",
         "explanation": "PROVED: (1) frame - predict of the KNN-supervised and unsupervised models modifies NO model state "
                        "(`modifies` is empty; one frame obligation per field of the model and its subgraph), supervised / "
                        "semi-supervised predict modifies only the relevance flags, which it never reads; hence earlier calls "
@@ -323,10 +323,15 @@ PROPERTIES = {
                        "max(cost, distance) in conquest order (post first_minimiser, ghost winner position, strict updates) - "
                        "and the relational post position_independent is discharged: two queries of one batch that present the "
                        "same sample (equal features, or equal dataset index under pre-computed distances) get the same label; "
-                       "with (1) the same function is computed by every later call. NOT PROVED: the same functional "
-                       "characterisation for the KNN-supervised / unsupervised predict (their tie-breaking among equally good "
-                       "neighbours is determined by the stable insertion order of the k-NN buffer; not specified). NOTE: the "
-                       "supervised contract thereby fixes the tie policy (first minimiser); a change to another deterministic "
+                       "with (1) the same function is computed by every later call; (5) for the KNN-supervised / unsupervised "
+                       "predict the per-query assertion now also fixes WHICH k samples in WHICH order and WHICH winner: the "
+                       "buffer is strictly ascending in the lexicographic order on (distance, training position) (stable "
+                       "insertion: invariants tie_stable / tie_outside_after / tie_shifted_strict), every sample outside comes "
+                       "after its last entry in that order, and the winner is the FIRST maximiser of min(cost, density) "
+                       "(tie_first_so_far); lemmas/KNearest.lean (Lean 4 + Mathlib, re-checked on every run) proves that these "
+                       "clauses admit at most one buffer, one density and one winner, hence one label / cluster per (model, "
+                       "sample). NOTE: the contracts thereby fix the tie policies (first minimiser; stable k-NN buffer + first "
+                       "maximiser); a change to another deterministic "
                        "policy would be reported although C09 would still hold. BOUNDED: relational run-time contract - "
                        "the same sample alone, at every position of batches with other samples / duplicates, and after earlier "
                        "predict calls, on all four model kinds.",
